@@ -436,3 +436,25 @@ Proof.
   intros Hen HD Hin. rewrite check_disable_exact by exact Hen. apply in_map. apply filter_In. split; [exact Hin|].
   now rewrite HD.
 Qed.
+
+(* ------------------------------------------------------------------ C10: what a second Rule.fix selects *)
+Lemma filter_idem {A} (f : A -> bool) l : filter f (filter f l) = filter f l.
+Proof.
+  induction l as [|x l IH]; [reflexivity|]. cbn [filter]. destruct (f x) eqn:E; [|exact IH].
+  cbn [filter]. now rewrite E, IH.
+Qed.
+
+(* a rule that is not fixable repairs nothing, whatever it reports: its report after a fix is its report before *)
+Theorem unfixable_fixes_nothing {V} (line : V -> nat) d r (vs : list V) :
+  rfixable r = false -> fixed_violations line d r vs = [].
+Proof. intros H. unfold fixed_violations. now rewrite H. Qed.
+
+(* the selection of violations to repair is idempotent: analysing again and selecting again among the selected
+   violations selects all of them (a second fix is offered exactly what the first one was, no more) *)
+Theorem fix_selection_idempotent {V} (line : V -> nat) d r (vs : list V) :
+  fixed_violations line d r (fixed_violations line d r vs) = fixed_violations line d r vs.
+Proof.
+  unfold fixed_violations. destruct (rfixable r); [|reflexivity]. unfold filter_fix_only.
+  destruct d as [m|]; [|reflexivity]. destruct (lookup (rid r) m) as [ls|]; [|reflexivity].
+  destruct (existsb is_all ls); [reflexivity|]. apply filter_idem.
+Qed.
